@@ -40,7 +40,8 @@ EXPLANATION = (
     "encoded) with no slicing/stripping, and the three url-rewrapping GeminiResponse "
     "constructions pass status/meta/body through. (R4/R5) both listeners construct the same "
     "protocol; the raw transport is written only with bio_read output. "
-    "(R2, abort) transport.abort() - which discards queued output - is not reachable in the manual TLS classes once the handshake may be complete, nor in the inner protocol after a response write."
+    "(R2, abort) transport.abort() - which discards queued output - is not reachable in the manual TLS classes once the handshake may be complete, nor in the inner protocol after a response write. "
+    "(R6) listeners do not shorten asyncio's TLS shutdown grace period."
 )
 
 PARTIAL_WRITE = {
